@@ -137,8 +137,8 @@ def gen_case(rng, mode=None, force=None):
             kk = rng.randint(1, len(labs))
             m["order"] = [list(l) for l in rng.sample(labs, kk)]
         maps.append(m)
-    if mode == "hist" and not rest and maps and rng.random() < 0.8:
-        rest = list(maps.pop()["dims"])          # keep something to bin over (all-mapped is a known defect)
+    if mode == "hist" and not rest and maps and rng.random() < 0.6:
+        rest = list(maps.pop()["dims"])          # mostly keep something to bin over (all mapped: one value per slice)
     cfg["maps"] = maps
     unmapped = sorted(rest)
     # ---- options
@@ -865,8 +865,20 @@ def oracle_hist(cfg, obs, E, bad, info):
     edges = hist_edges(cfg, E)
     info["edges"] = edges
     if any(b <= a for a, b in zip(edges, edges[1:])):
-        info["degenerate"] = True        # a single distinct value with default bins: zero-width bins (outside the guard)
-        return
+        # bins=None / int and a single distinct value: linspace(x, x) has zero-width bins (outside the guard; reported
+        # separately as histogram-constant-data-zero-width-bins).  If the implementation widens the range to
+        # [x - 0.5, x + 0.5] as numpy.histogram does, the case is checked like any other.
+        wide = [float(v) for v in np.linspace(edges[0] - 0.5, edges[0] + 0.5, len(edges))]
+        cw = [(wide[k] + wide[k + 1]) / 2 for k in range(len(wide) - 1)]
+        drawn = [ln for row in obs["panels"] for P in row for ln in P["lines"] if not is_cap(ln)]
+        if drawn and all(len(ln["xy"]) == len(cw) and all(close(p[0], c) and p[1] is not None and math.isfinite(p[1])
+                                                          for p, c in zip(ln["xy"], cw)) for ln in drawn):
+            edges = wide
+            info["edges"] = edges
+            info["widened"] = True
+        else:
+            info["degenerate"] = True
+            return
     centres = [(edges[k] + edges[k + 1]) / 2 for k in range(len(edges) - 1)]
     dens = cfg.get("bins_density", True)
     # identify the panels by their titles and the lines by their labels (histogram heights carry no ids)
@@ -1243,7 +1255,11 @@ def directed_cases(rng, tier):
         for st in ("band", "bars"):
             wanted.append(("lines", lambda c, er=er, st=st: c["agg"] is not None and c.get("agg_err") == er
                            and (c.get("err_style") or "band") == st and finite(c)))
-    wanted += [("hist", lambda c: c["maps"] and not Expect(c).binned)] * 2          # the known defect
+    # every dimension mapped: '__hist_dim__' has one entry (raised before the repair of
+    # histogram-all-dims-mapped-raises), with default, integer and explicit bins
+    wanted += [("hist", lambda c: c["maps"] and not Expect(c).binned and c.get("bins") is None and finite(c))] * 2
+    wanted += [("hist", lambda c: c["maps"] and not Expect(c).binned and isinstance(c.get("bins"), int) and finite(c))]
+    wanted += [("hist", lambda c: c["maps"] and not Expect(c).binned and nonuniform(c) and finite(c))] * 2
     out = []
     for mode, pred in wanted:
         cfg = directed(rng, mode, pred)
@@ -1319,6 +1335,7 @@ def evaluate(c, cfg, pairs, metas):
             c.count("err_style", str(cfg.get("err_style")))
     if cfg["mode"] == "hist":
         b = cfg.get("bins")
+        c.count("histogram_over", "unmapped dimensions" if E.binned else "single values (every dimension mapped)")
         c.count("bins", "None" if b is None else ("int" if isinstance(b, int) else ("non-uniform" if nonuniform(cfg) else "uniform")))
         c.count("bins_density", bool(cfg.get("bins_density", True)))
     c.count("outcome", "degenerate (nothing to draw)" if info.get("degenerate") else obs.get("error", "ok"))
@@ -1392,6 +1409,9 @@ def run(tier, seed):
     c.cov["exhaustive"] = False
     c.notes.append("degenerate cases (no finite value inside the explicit orders, or a single distinct value with default "
                    "bins) are generated and run but nothing is required of them: there is nothing to draw")
+    c.notes.append("observation outside the guard (key histogram-constant-data-zero-width-bins, reported separately): with "
+                   "bins=None / int and all values equal, linspace(xmin, xmax) gives zero-width bins and the drawn "
+                   "density is nan / inf; such cases are counted as degenerate, nothing is required of them")
     c.notes.append("histogram cases whose default edges are not multiples of 1/8 are checked by the oracle (floats, "
                    "tolerance 1e-9) but not compared with the integer model")
     c.notes.append("aggregation statistics, error bands / bars, heat-map colours without a palette, bin centres: "
